@@ -18,6 +18,12 @@ TRUSTED = ["hand model lean/AwsVerif/Model/Sba.lean (tied by this correspondence
            "harness/sba.c: link-time wrapping of posix_memalign/free (page numbering), recording parent allocator, per-block fill patterns, "
            "real-address overlap / ownership monitors; harness/detsched.c (serialising scheduler) for the scheduled stage"]
 ASSUMPTIONS = ["posix_memalign returns a page not currently held; the parent allocator returns fresh, disjoint, 16-byte aligned blocks",
+               "PARENT CONTRACT (model assumption): the parent's acquire/calloc return a block disjoint from every live block; its realloc(p, old, new) "
+               "returns a block of `new` bytes whose first min(old,new) bytes are those of p, writes to no other live block and invalidates p only "
+               "(modelled as: acquire new, copy min(old,new), release p — the both-sizes-above-512 case of s_sba_mem_realloc is forwarded to it). "
+               "c03_realloc_contents is proved under this contract; the correspondence run checks the REAL parents against it: the SBA is run over "
+               "aws_default_allocator(), aws_aligned_allocator(), plain malloc and the harness allocator with and without mem_realloc / mem_calloc, "
+               "sizes at 512+-1 and 4096+-1, with the fill patterns of all live blocks re-checked after every op under ASan",
                "MODEL ASSUMPTION: the words at the page base of a parent block never equal AWS_SBA_TAG_VALUE (s_sba_free's unlocked tag test is "
                "not in the Lean model). It is no longer unchecked: the -O2 history stage (malloc as the parent, which recycles the memory of "
                "returned pages) exercises exactly this test and found the stale-tag defect repaired by /repo bdb9b25; user data that happens "
@@ -34,6 +40,9 @@ RULE = ("op sequences new/acq/calloc/realloc/rel/destroy over one allocator; siz
 NOT_PROVED = []
 
 SIZES = [1, 8, 16, 31, 32, 33, 63, 64, 65, 127, 128, 129, 255, 256, 257, 511, 512, 513, 4000]
+# boundaries of the parents as well: 4096 = PAGE_SIZE of aws_aligned_allocator() (alignment class, realloc shortcut)
+BIG_SIZES = [513, 514, 600, 1024, 4000, 4095, 4096, 4097, 5000, 8191, 8192, 8193]
+PARENTS = ["hc", "default", "aligned", "norealloc", "nocalloc", "bare", "malloc"]
 _consts = {}
 
 
@@ -294,20 +303,25 @@ def per_page(cls):
 
 class Builder:
     """op list builder tracking the live names and their sizes (the generator's own bookkeeping)"""
-    def __init__(self, rng, mt=None):
+    def __init__(self, rng, mt=None, parent=None):
         self.rng = rng
-        self.ops = ["new mt=%d" % (rng.randint(0, 1) if mt is None else mt)]
+        if parent is None:
+            parent = "hc" if rng.random() < 0.4 else rng.choice(PARENTS)
+        self.parent = parent
+        self.ops = ["new mt=%d%s" % (rng.randint(0, 1) if mt is None else mt, "" if parent == "hc" else " " + parent)]
         self.live = []          # [name, size] in allocation order
         self.n = 0
-        self.tags = {"cross": 0, "drain": 0}
+        self.tags = {"cross": 0, "drain": 0, "parent": parent, "cross4096": 0}
 
     def size(self):
         r = self.rng.random()
-        if r < 0.7:
+        if r < 0.62:
             return self.rng.choice(SIZES)
+        if r < 0.72:
+            return self.rng.choice(BIG_SIZES)
         if r < 0.95:
             return self.rng.randint(1, 600)
-        return self.rng.randint(513, 5000)
+        return self.rng.randint(513, 9000)
 
     def acq(self, size=None):
         size = size or self.size()
@@ -335,8 +349,10 @@ class Builder:
             r = self.rng.random()
             if r < 0.5:
                 new = self.rng.choice(SIZES)
-            elif r < 0.8:
+            elif r < 0.7:
                 new = self.rng.choice([512, 513, 511, 514, 600, 1024, 256, 64])
+            elif r < 0.8:
+                new = self.rng.choice(BIG_SIZES)
             elif r < 0.84:
                 new = 0
             else:
@@ -344,6 +360,8 @@ class Builder:
         self.ops.append(f"realloc {e[0]} {e[1]} {new}")
         if (e[1] <= 512) != (new <= 512) and new:
             self.tags["cross"] += 1
+        if (e[1] <= 4096) != (new <= 4096) and new and min(e[1], new) > 512:
+            self.tags["cross4096"] += 1
         if new == 0:
             self.live.remove(e)
         else:
@@ -522,6 +540,27 @@ def case_cross(rng):
     return b.finish()
 
 
+def case_parents(rng, parent):
+    """parent-served blocks on every parent configuration: sizes at 512+-1 and at the parent's own boundary 4096+-1,
+    reallocs crossing each boundary in both directions (the both-sizes->512 case is forwarded to the PARENT's realloc),
+    calloc, a few small blocks in between as witnesses whose patterns must survive"""
+    b = Builder(rng, parent=parent)
+    for _ in range(rng.randint(2, 5)):
+        b.acq(rng.choice(BIG_SIZES + [512, 511, 32]))
+    for _ in range(rng.randint(6, 30)):
+        r = rng.random()
+        if r < 0.62 and b.live:
+            b.realloc(new=rng.choice(BIG_SIZES + BIG_SIZES + [1, 16, 32, 511, 512]))
+        elif r < 0.72:
+            b.calloc(rng.choice(BIG_SIZES + [512, 64]))
+        elif r < 0.86:
+            b.acq(rng.choice(BIG_SIZES + SIZES))
+        elif b.live:
+            b.rel(rng.randrange(len(b.live)))
+    b.release_all(rng.choice(ORDERS))
+    return b.finish()
+
+
 def exhaustive_cases(depth, cls=512):
     """small scope: a page of the given class one chunk short of exhaustion, then every sequence of
     the given length over {acquire, release oldest / newest / middle, realloc newest across the boundary}"""
@@ -580,6 +619,14 @@ def gen_cases(rng, tier):
         cases.append(case_drain(rng))
     for _ in range(120 if quick else 2000):
         cases.append(case_cross(rng))
+    for par in PARENTS:
+        for _ in range(25 if quick else 400):
+            cases.append(case_parents(rng, par))
+    # hand-written: shrink from above the aligned allocator's PAGE_SIZE class to below it, neighbours as witnesses
+    for par in PARENTS:
+        cases.append(Case([f"new mt=0 {par}", "acq p1 5000", "acq p2 600", "acq p3 5000", "acq p4 48", "realloc p1 5000 600",
+                           "realloc p3 5000 4096", "realloc p3 4096 4097", "realloc p3 4097 513", "realloc p2 600 5000",
+                           "realloc p2 5000 4095", "rel p4", "rel p1", "rel p2", "rel p3", "destroy"], {"parent": par, "cross4096": 4}))
     cases += fullpage_cases(rng, tier)
     cases += exhaustive_cases(4 if quick else 6)
     if not quick:
@@ -745,12 +792,12 @@ def oracle(case, lines):
 
 
 def nontrivial(case):
-    return bool(case.tags.get("drain") or case.tags.get("cross"))
+    return bool(case.tags.get("drain") or case.tags.get("cross") or case.tags.get("cross4096"))
 
 
 def distribution(cases, c_out):
     d = {"acq": 0, "calloc": 0, "realloc": 0, "rel": 0, "destroy": 0, "mt1": 0, "cross_boundary_reallocs": 0, "drain_cases": 0,
-         "exhaustive_cases": 0, "fullpage_cases": 0, "small_results": 0, "big_results": 0, "pages_obtained_max": 0, "quiescent_points": 0}
+         "exhaustive_cases": 0, "fullpage_cases": 0, "parents": {}, "reallocs_across_4096": 0, "small_results": 0, "big_results": 0, "pages_obtained_max": 0, "quiescent_points": 0}
     for i, c in enumerate(cases):
         for o in c.ops:
             k = o.split()[0]
@@ -759,6 +806,9 @@ def distribution(cases, c_out):
             if o == "new mt=1":
                 d["mt1"] += 1
         d["cross_boundary_reallocs"] += c.tags.get("cross", 0)
+        d["reallocs_across_4096"] += c.tags.get("cross4096", 0)
+        if c.tags.get("parent"):
+            d["parents"][c.tags["parent"]] = d["parents"].get(c.tags["parent"], 0) + 1
         d["drain_cases"] += 1 if c.tags.get("drain") else 0
         d["exhaustive_cases"] += 1 if c.tags.get("exhaustive") else 0
         d["fullpage_cases"] += 1 if c.tags.get("fullpage") else 0
